@@ -338,9 +338,15 @@ class DPMultiheadAttention(nn.Module):
             attn_output_weights = attn_output_weights.view(
                 bsz, self.num_heads, tgt_len, src_len
             )
-            attn_output_weights = attn_output_weights.masked_fill(
-                key_padding_mask.unsqueeze(1).unsqueeze(2), float("-inf")
-            )
+            if key_padding_mask.dtype == torch.bool:
+                attn_output_weights = attn_output_weights.masked_fill(
+                    key_padding_mask.unsqueeze(1).unsqueeze(2), float("-inf")
+                )
+            else:
+                # an additive (float) key padding mask, as nn.MultiheadAttention accepts
+                attn_output_weights = attn_output_weights + key_padding_mask.unsqueeze(
+                    1
+                ).unsqueeze(2)
             attn_output_weights = attn_output_weights.view(
                 bsz * self.num_heads, tgt_len, src_len
             )
